@@ -259,7 +259,7 @@ func (h H) lostFlagDiscipline(rule string) {
 		a := rfi.Sym(c.Common().Args[1]).String()
 		if strings.Contains(rfi.Sym(c.Common().Args[0]).String(), "neHead") {
 			n++
-			h.C.Check(rule+" release-reply", "(*leader).release pending-entry reply", a == "phi(notLeaderError(leader.Raft, true), global:ErrServerClosed)", h.pos(c), "pending entries must be failed with NotLeaderError{Lost:true} or ErrServerClosed; found "+a)
+			h.C.Check(rule+" release-reply", "(*leader).release pending-entry reply", (a == "phi(notLeaderError(leader.Raft, true), global:ErrServerClosed)" || a == "phi(global:ErrServerClosed, notLeaderError(leader.Raft, true))"), h.pos(c), "pending entries must be failed with NotLeaderError{Lost:true} or ErrServerClosed; found "+a)
 		}
 	}
 	h.C.Floor(rule+" (pending-entry replies in release)", n, 1)
@@ -268,7 +268,7 @@ func (h H) lostFlagDiscipline(rule string) {
 // nonLeaderRejects (C07.2): in stateLoop, storeEntry only when Leader; otherwise dirty reads go to the FSM, everything else is refused.
 func (h H) nonLeaderRejects(rule string) {
 	fn := h.fn("raft:(*Raft).stateLoop")
-	fi := h.P.Info(fn)
+	_ = h.P.Info(fn)
 	se := h.fn("raft:(*leader).storeEntry")
 	leader := "State(" + h.P.Const("raft:Leader").Val().ExactString() + ")"
 	for k, c := range h.P.CallsTo(fn, se) {
@@ -277,7 +277,7 @@ func (h H) nonLeaderRejects(rule string) {
 	h.onlyCallers(rule+" who-may-call", "raft:(*leader).storeEntry", "(*Raft).stateLoop", "(*leader).init", "(*leader).doChangeConfig")
 	dr := h.P.Named("raft:fsmDirtyRead")
 	n := 0
-	core.Instrs(fn, func(in ssa.Instruction) {
+	h.P.InstrsScope(fn, func(in ssa.Instruction) {
 		if s, ok := in.(*ssa.Send); ok {
 			v := s.X
 			if mi, ok := v.(*ssa.MakeInterface); ok {
@@ -285,7 +285,7 @@ func (h H) nonLeaderRejects(rule string) {
 			}
 			if types.Identical(v.Type(), dr) {
 				n++
-				r := fi.MustCross(s, func(a core.Atom) bool {
+				r := h.P.Info(s.Parent()).MustCross(s, func(a core.Atom) bool {
 					return a.Op == "==" && a.R == h.constStr("raft:entryDirtyRead") && strings.HasSuffix(a.L, ".entry.typ")
 				})
 				h.C.Check(rule+" only-dirty-reads-forwarded", "(*Raft).stateLoop send fsmDirtyRead", r.OK, h.pos(s), "a non-leader forwards something other than a dirty read to the state machine: "+r.Witness)
@@ -296,8 +296,13 @@ func (h H) nonLeaderRejects(rule string) {
 	// the non-leader branch answers every entry of the batch: its receiver walks the .next chain
 	reply := h.fn("raft:(*task).reply")
 	for k, c := range h.P.CallsTo(fn, reply) {
-		recv := fi.Sym(c.Common().Args[0]).String()
-		if !strings.HasPrefix(recv, "phi(select@") && !strings.HasPrefix(recv, "select@") {
+		recv := h.P.Info(c.Parent()).Sym(c.Common().Args[0]).String()
+		if c.Parent() != fn {
+			// inside a new helper the batch is a parameter: $k or phi($k, ....next)
+			if !strings.HasPrefix(recv, "phi(") && !strings.HasPrefix(recv, "$") && !strings.HasPrefix(recv, "newEntry") {
+				continue
+			}
+		} else if !strings.HasPrefix(recv, "phi(select@") && !strings.HasPrefix(recv, "select@") {
 			continue
 		}
 		h.C.Check(rule+" rejects-whole-batch", h.site(fn, reply, k), strings.Contains(recv, ".next)"), h.pos(c), "a non-leader answers only the head of a batch of client entries; receiver: "+recv)
